@@ -44,25 +44,25 @@ let () =
          (* the second model of CheckDataRefs (Model/Compile.v, C13) and the hypothesis of the tie theorem *)
          v (check_registry_c13 reg); bool_s (registry_maps_sorted reg)]
     | _ -> failwith "c07_registry");
-  (* render_x <key> <xTemplate> <fuel> <ij sexp | none> ; <data sexp> -> outcome class, refined unbound counter
+  (* render_xc <key> <xTemplate> <fuel> <ij sexp | none> ; <data sexp> -> outcome class, refined unbound counter
      (misses of declared params of the executing template are not counted), writes *)
-  register "render_x" (fun a ->
+  register "render_xc" (fun a ->
     match a with
     | key :: tname :: fuel :: rest ->
         let reg = Hashtbl.find Ops_interp.registries key in
         let s = String.concat " " rest in
         let (ijs, ds) = (match String.index_opt s ';' with
                          | Some i -> (String.trim (String.sub s 0 i), String.trim (String.sub s (i + 1) (String.length s - i - 1)))
-                         | None -> failwith "render_x: missing ;") in
+                         | None -> failwith "render_xc: missing ;") in
         let ij = if ijs = "none" then None else Some (value_of (Sexp.parse ijs)) in
         let (did, dm) = (match value_of (Sexp.parse ds) with
                          | VMap (id, m) -> (id, m)
                          | VNull -> (N0, [])
-                         | _ -> failwith "render_x: data must be a map") in
+                         | _ -> failwith "render_xc: data must be a map") in
         let cf = { c_reg = reg; c_ij = ij; c_oblig = []; c_msgs = None } in
-        let r = render_x cf (nat_of_int (int_field fuel)) (xs tname) did dm None None (n_of_int 1000000) in
+        let r = render_xc cf (nat_of_int (int_field fuel)) (xs tname) did dm None None (n_of_int 1000000) in
         let cls = (match r.rr_outcome with
                    | Ok _ -> "ok" | Err _ -> "err" | Crash _ -> "crash"
                    | Diverge -> "diverge" | OutOfFuel -> "fuel" | OutOfModel -> "outofmodel") in
         [cls; "#" ^ string_of_int (int_of_nat r.rr_unbound)] @ List.map hex_of_bstr r.rr_writes
-    | _ -> failwith "render_x")
+    | _ -> failwith "render_xc")
